@@ -7,6 +7,9 @@ var commonAssumptions = []string{
 }
 
 var props = map[string]propMeta{
+	"C06": {Level: "model_checking", QuickS: 150, ThoroughS: 1500, NeedBin: true,
+		Rule: "logs = every sequence of <= 2 (thorough 3) days over the window 2021/01/23..27 and the keyword boundary dates, any order, repetition allowed x every (begin,end) pair over {absent, window dates, today, yesterday, last7, last30, boundary dates} x 8 period-aware commands + summary DATE x flag position {global, sub-command, sub-command over a global decoy} x 5 time zones (quick: position/TZ as <=1 deviation each; thorough: full product on the window). Differential oracle: same command on the log with the other days deleted and no period. A case is non-trivial when the period selects some but not all days.",
+		Assumptions: commonAssumptions},
 	"C03": {Level: "model_checking", QuickS: 150, ThoroughS: 1500, NeedBin: true,
 		Rule: "every subset of the 14 category paths of depth <= 3 over segments {a,b} (thorough: also every set of <= 4 of the 39 paths over {a,b,c}) as the logged foods, the i-th path logged with quantity 2^i so every printed amount identifies the foods it sums, x {default, --collapse, --collapse-last} x {all foods, -s X} x sign/order/two-day passes. A case is non-trivial when at least two foods are shown.",
 		Assumptions: commonAssumptions},
